@@ -12,13 +12,37 @@ RAID_SRCS = ['raid/int.c', 'raid/intz.c', 'raid/raid.c', 'raid/tables.c']
 def table_obs(tier):
     obs = []
     for hi in range(16):
-        obs.append(Ob('tab.mul.hi%x' % hi, 'harness/tables.c', 'h_tab_mul', ['raid/tables.c'], defs={'HI': hi},
+        obs.append(Ob('tab.mul.hi%x' % hi, 'harness/h_tables.c', 'h_tab_mul', ['raid/tables.c'], defs={'HI': hi},
                       functions=['raid_gfmul[256][256] (raid/tables.c)'], timeout=600, mem=3, cost=3))
     for e, fn in (('h_tab_inv', 'raid_gfinv[256]'), ('h_tab_exp', 'raid_gfexp[256]'),
                   ('h_tab_cauchy', 'raid_gfcauchy[6][256]'), ('h_tab_power', 'raid_gfvandermonde[3][256]'),
                   ('h_tab_pshufb', 'raid_gfcauchypshufb[251][4][2][16]'), ('h_tab_mulpshufb', 'raid_gfmulpshufb[256][2][16]')):
-        obs.append(Ob('tab.' + e[6:], 'harness/tables.c', e, ['raid/tables.c'], functions=[fn + ' (raid/tables.c)'],
+        obs.append(Ob('tab.' + e[6:], 'harness/h_tables.c', e, ['raid/tables.c'], functions=[fn + ' (raid/tables.c)'],
                       timeout=600, mem=3, cost=2))
+    return obs
+
+
+# ---------------------------------------------------------------- stream primitives (C09, C10, C16)
+STREAM_FUNCS = {
+    'h_sgetb32': ['sgetb32', 'sgetc', 'sgetc_uncached', 'sfill', 'stell'],
+    'h_sgetb64': ['sgetb64', 'sgetc', 'sgetc_uncached', 'sfill', 'stell'],
+    'h_sgetble32': ['sgetble32', 'sread', 'sgetc', 'sgetc_uncached', 'sfill'],
+    'h_sgetbs': ['sgetbs', 'sgetb32', 'sread', 'sgetc', 'sgetc_uncached', 'sfill'],
+    'h_rt32': ['sputb32', 'swrite', 'sputc', 'sflush', 'sgetb32'],
+    'h_rt64': ['sputb64', 'swrite', 'sputc', 'sflush', 'sgetb64'],
+    'h_rtle32': ['sputble32', 'swrite', 'sflush', 'sgetble32', 'sread'],
+    'h_rtbs': ['sputbs', 'sputb32', 'swrite', 'sflush', 'sgetbs', 'sread'],
+}
+
+
+def stream_obs(which):
+    obs = []
+    for e in which:
+        obs.append(Ob('stream.' + e[2:], 'harness/h_stream.c', e, ['cmdline/util.c'], unwind=14, solver=['--sat-solver', 'cadical'],
+                      functions=[f + ' (cmdline/stream.c)' for f in STREAM_FUNCS[e]], timeout=900, mem=6, cost=5,
+                      kind='proof' if e not in ('h_sgetbs', 'h_rtbs') else 'bounded',
+                      bound=None if e not in ('h_sgetbs', 'h_rtbs') else 'string buffer of at most 6 bytes (STRSZ), every size argument 1..6',
+                      note='every byte string of length <= 12 (a 64-bit varint has at most 10 bytes), every chunking by read(), STREAM_SIZE 1..4; loops unwound to 14 with unwinding assertions (complete: bounded by operand width)'))
     return obs
 
 
@@ -26,7 +50,17 @@ def c02(tier, seed):
     return table_obs(tier)
 
 
+def c09(tier, seed):
+    return stream_obs(['h_sgetb32', 'h_sgetb64', 'h_sgetble32', 'h_sgetbs'])
+
+
+def c10(tier, seed):
+    return stream_obs(['h_rt32', 'h_rt64', 'h_rtle32', 'h_rtbs'])
+
+
 PROPS = {
+    'C09': dict(level='other', obligations=c09, explanation='', trusted_base=[], assumptions=[], not_covered=[]),
+    'C10': dict(level='other', obligations=c10, explanation='', trusted_base=[], assumptions=[], not_covered=[]),
     'C02': dict(level='proof', obligations=c02,
                 explanation='',
                 trusted_base=[], assumptions=[], not_covered=[]),
